@@ -14,7 +14,7 @@ from typing import Dict, List, Optional
 
 from ..algebra import Rat, to_rat
 from ..index import AnalysisError, call_name, norm, norm1
-from ..sem import Sem
+from ..sem import Sem, inline_private_helpers
 from .c12 import check_reorder
 from .common import Frag, calls, const_of, enclosing, fctx, in_body, is_name, kwarg, method_calls, pmatch, stmts
 
@@ -59,8 +59,9 @@ def run(ctx) -> None:
 
     # ---------------------------------------------------------------- R29.2
     r2 = ctx.rule("R29.2", "get_refined keeps original points and their labels/breaks; uniform insertion")
-    f = idx.function(PT, "Path.get_refined")
-    cfg, du, pm = fctx(f)
+    f = inline_private_helpers(idx, idx.function(PT, "Path.get_refined"))
+    S2 = Sem(idx, f)
+    cfg, du, pm = S2.cfg, S2.du, S2.pm
     r2.instance(f.short)
     rt = [s_ for s_ in stmts(f.node) if isinstance(s_, ast.Return) and isinstance(s_.value, ast.Call)]
     loops = [s_ for s_ in f.node.body if isinstance(s_, ast.For)]
@@ -69,12 +70,10 @@ def run(ctx) -> None:
         return
     lp = loops[0]
     i = lp.target.id
-    body = lp.body
     kws = {k.arg: norm(k.value) for k in rt[0].value.keywords}
     lst, labs, brks = kws.get("k_list"), kws.get("labels"), kws.get("breaks")
-    r2.expect(all(x is not None and x.isidentifier() for x in (lst, labs, brks)), "returned lists are local names", f, rt[0],
-              "get_refined: `return Path(k_list=…, labels=…, breaks=…)` with local lists expected")
     if not all(x is not None and x.isidentifier() for x in (lst, labs, brks)):
+        r2.expect(False, "returned lists are local names", f, rt[0], "get_refined: `return Path(k_list=…, labels=…, breaks=…)` with local lists expected")
         return
     for nm, empty in ((lst, ("[]", "list()")), (labs, ("{}", "dict()")), (brks, ("[]", "list()"))):
         d0 = [d for ds in du.defs_at.values() for d in ds if d.name == nm]
@@ -82,68 +81,112 @@ def run(ctx) -> None:
                  f"`{nm}` is rebound / does not start empty in get_refined: previously collected points, labels or breaks are lost")
     lpi = du.resolve_local(lp.iter.args[0], cfg.node(lp)) if isinstance(lp.iter, ast.Call) and call_name(lp.iter) == "range" and len(lp.iter.args) == 1 else None
     n_last = norm(lpi).replace(" ", "") if lpi is not None else None
-    last_names = {norm(lp.iter.args[0])} if lpi is not None else set()
+    lasts = sorted(({norm(lp.iter.args[0])} if lpi is not None else set()) | {"len(self.K_list) - 1", "-1"})
 
-    def pos(pred) -> List[int]:
-        return [k for k, s_ in enumerate(body) if pred(s_)]
-    p_app = pos(lambda s_: isinstance(s_, ast.Expr) and norm(s_.value).replace(" ", "") == f"{lst}.append(self.K_list[{i}])")
-    p_lab = pos(lambda s_: isinstance(s_, ast.If) and norm(s_.test) == f"{i} in self.labels")
-    p_brk = pos(lambda s_: isinstance(s_, ast.If) and norm(s_.test) == f"{i} in self.breaks")
-    p_ins = pos(lambda s_: any(isinstance(x, ast.For) for x in ast.walk(s_)) and f"{lst}.append(" in norm(s_))
-    r2.check(len(p_app) == 1 and n_last == "len(self.K_list)-1",
-             "every original point except the last is appended in the loop", f, lp, "get_refined does not append every original point K_list[i], i < len − 1")
-    ok_order = bool(p_app and p_lab and p_brk and p_ins) and p_app[0] < p_lab[0] < p_ins[-1] and p_app[0] < p_brk[0] < p_ins[-1]
-    r2.check(ok_order, "labels and breaks are re-keyed right after their own point, before inserted points", f, body[p_lab[0]] if p_lab else lp,
-             "a label/break index is taken from len(refined) − 1 when that is not the position of the point it belongs to "
-             "(taken before the point is appended, or after interpolated points were inserted): labels drift off their k-points")
-    for p_, kind in [(x, "label") for x in p_lab[:1]] + [(x, "break") for x in p_brk[:1]]:
-        s_ = body[p_]
-        want = f"{labs}[len({lst}) - 1] = self.labels[{i}]" if kind == "label" else f"{brks}.append(len({lst}) - 1)"
-        r2.check(len(s_.body) == 1 and not s_.orelse and bool(pmatch(s_.body[0], want)) , f"{kind}: new key = len(refined) − 1, value = the point's own {kind}", f, s_,
-                 f"`{norm1(s_)}` does not re-key the {kind} of point {i} by len({lst}) − 1")
+    def own_point(block: List[ast.stmt], P_forms, what: str):
+        """In `block`: the append of original point P and the re-keying of its label and break at the position that point gets."""
+        def grows(s_):   # statements that append to the refined list
+            return [c_ for c_ in ast.walk(s_) if isinstance(c_, ast.Call) and isinstance(c_.func, ast.Attribute) and c_.func.attr in ("append", "extend", "insert")
+                    and norm(c_.func.value) == lst]
+        p_app = [k for k, s_ in enumerate(block) if isinstance(s_, ast.Expr) and any(norm(s_.value).replace(" ", "") == f"{lst}.append(self.K_list[{P}])".replace(" ", "") for P in P_forms)]
+        if len(p_app) != 1:
+            r2.check(False, f"{what} point appended", f, block[0] if block else f.node, f"get_refined does not append the {what} original point K_list[{P_forms[0]}] exactly once")
+            return None
+        pa = p_app[0]
+
+        def key_index(key: ast.AST, p_use: int):
+            """index denoted by `key` relative to the list length L0 at block start: (offset, position where len() is read) or None"""
+            e, p_eval = key, p_use
+            if isinstance(e, ast.Name):
+                dd = du.single_def(e.id, cfg.node(block[p_use]))
+                if dd is None or dd.stmt not in block:
+                    return None
+                e, p_eval = dd.value, block.index(dd.stmt)
+            t_ = norm(e).replace(" ", "")
+            if t_ == f"len({lst})-1":
+                off = -1
+            elif t_ == f"len({lst})":
+                off = 0
+            else:
+                return None
+            n_before = 0
+            for k in range(p_eval):
+                g_ = grows(block[k])
+                if not g_:
+                    continue
+                if k == pa:
+                    n_before += 1
+                else:
+                    return None       # an insertion of unknown size precedes the read of len()
+            return n_before + off, p_eval
+        res = {}
+        for kind, attr in (("label", "labels"), ("break", "breaks")):
+            hits = []
+            for k, s_ in enumerate(block):
+                if isinstance(s_, ast.If) and any(norm(s_.test) == f"{P} in self.{attr}" for P in P_forms) and len(s_.body) == 1 and not s_.orelse:
+                    st_ = s_.body[0]
+                    if kind == "label":
+                        m_ = pmatch(st_, f"{labs}[KEY_] = self.labels[P_]", {"KEY_", "P_"})
+                        if m_ and m_[0][0] is st_ and m_[0][1]["P_"] in P_forms:
+                            hits.append((k, st_.targets[0].slice))
+                    else:
+                        m_ = pmatch(st_, f"{brks}.append(KEY_)", {"KEY_"})
+                        if m_ and isinstance(st_, ast.Expr) and m_[0][0] is st_.value:
+                            hits.append((k, st_.value.args[0]))
+            ok_ = False
+            if len(hits) == 1:
+                ki = key_index(hits[0][1], hits[0][0])
+                own_index = 0   # appends before the own append within the block are not allowed (own point is the first growth)
+                ok_ = ki is not None and ki[0] == own_index and not any(grows(block[k]) for k in range(pa))
+            r2.check(ok_, f"{what} point: its {kind} is re-keyed by the position the point gets in the refined list", f, block[hits[0][0]] if hits else block[pa],
+                     f"the {kind} of the {what} original point is not stored under the index that point gets in `{lst}` (it must be len({lst}) read right before "
+                     f"the point is appended, or len({lst}) − 1 right after, before any interpolated point is inserted): labels/breaks drift off their k-points")
+            res[kind] = hits
+        return pa
+    pa = own_point(lp.body, [i], "current")
+    r2.check(n_last == "len(self.K_list)-1", "every original point except the last is handled in the loop", f, lp, "get_refined's loop does not run over all original points but the last")
     # inserted points
-    ins = [x for x in ast.walk(lp) if isinstance(x, ast.Call) and norm(x.func) == f"{lst}.append" and x.args and enclosing(pm, x, ast.For) is not lp]
-    if len(ins) != 1:
-        r2.expect(False, "inserted-point expression located", f, lp, "get_refined: the append of interpolated points inside an inner loop was not found")
+    ins_elt, ins_loop_iter, ins_var, ins_node = None, None, None, None
+    for c_ in ast.walk(lp):
+        if isinstance(c_, ast.Call) and isinstance(c_.func, ast.Attribute) and norm(c_.func.value) == lst:
+            if c_.func.attr == "append" and c_.args and enclosing(pm, c_, ast.For) is not lp and enclosing(pm, c_, ast.For) is not None:
+                jl = enclosing(pm, c_, ast.For)
+                ins_elt, ins_loop_iter, ins_var, ins_node = c_.args[0], jl.iter, norm(jl.target), c_
+            if c_.func.attr == "extend" and c_.args and isinstance(c_.args[0], (ast.GeneratorExp, ast.ListComp)) and len(c_.args[0].generators) == 1:
+                ge = c_.args[0].generators[0]
+                ins_elt, ins_loop_iter, ins_var, ins_node = c_.args[0].elt, ge.iter, norm(ge.target), c_
+    if ins_node is None:
+        r2.expect(False, "inserted-point expression located", f, lp, "get_refined: the insertion of interpolated points was not found")
         return
-    jl = enclosing(pm, ins[0], ast.For)
-    at_ins = du.node_of_expr(ins[0])
+    at_ins = du.node_of_expr(ins_node)
 
     def env(x):
         if isinstance(x, ast.Subscript) and norm(x.value) == "self.K_list":
             tt = norm(x.slice).replace(" ", "")
             return Rat.sym("K1") if tt in (f"{i}+1", f"1+{i}") else Rat.sym("K0") if tt == i else None
         if isinstance(x, ast.Name):
+            if x.id == ins_var:
+                return Rat.sym("j")
             dd = du.single_def(x.id, at_ins)
             if dd is not None and dd.kind == "assign" and x.id not in (i, "factor"):
                 return to_rat(dd.value, env)
             return Rat.sym(x.id)
         return None
-    got = to_rat(ins[0].args[0], env)
-    j = jl.target.id
-    want = Rat.sym("K0") + Rat.sym(j) * (Rat.sym("K1") - Rat.sym("K0")) / Rat.sym("factor")
-    r2.check(got.equals(want) and norm(jl.iter).replace(" ", "") == "range(1,factor)", "inserted points are K_i + j (K_{i+1} − K_i)/factor, j = 1 … factor−1",
-             f, ins[0], f"inserted points `{norm1(ins[0].args[0])}` over `{norm1(jl.iter)}` are not the uniform subdivision of the segment")
-    g = enclosing(pm, jl, ast.If)
-    okb = g is not None and ((norm(g.test) == f"{i} not in self.breaks" and in_body(g.body, jl)) or (norm(g.test) == f"{i} in self.breaks" and in_body(g.orelse, jl)))
-    r2.check(okb, "no points are inserted across a break", f, g or jl, "points are interpolated across a break of the path")
+    got = to_rat(ins_elt, env)
+    want = Rat.sym("K0") + Rat.sym("j") * (Rat.sym("K1") - Rat.sym("K0")) / Rat.sym("factor")
+    r2.check(got.equals(want) and norm(ins_loop_iter).replace(" ", "") == "range(1,factor)", "inserted points are K_i + j (K_{i+1} − K_i)/factor, j = 1 … factor−1",
+             f, ins_node, f"inserted points `{norm1(ins_elt)}` over `{norm1(ins_loop_iter)}` are not the uniform subdivision of the segment")
+    ins_stmt = enclosing(pm, ins_node, ast.stmt)
+    top_ins = ins_stmt
+    while pm.get(top_ins) is not lp:
+        top_ins = pm[top_ins]
+    r2.check(pa is not None and lp.body.index(top_ins) > pa, "interpolated points follow their segment's start point", f, top_ins,
+             "interpolated points are inserted before the original point that starts their segment")
+    okb = any(t_ == f"{i} in self.breaks" and p_ is False for t_, p_, _ in S2.conditions(ins_stmt, resolve=False))
+    r2.check(okb, "no points are inserted across a break", f, ins_stmt, "points are interpolated across a break of the path")
     after = f.node.body[f.node.body.index(lp) + 1:]
-    lastn = "|".join(sorted(last_names | {"len(self.K_list) - 1"}))
-    A = ast.Module(body=after, type_ignores=[])
-
-    def after_has(pat_variants) -> bool:
-        return any(pmatch(A, p_) for p_ in pat_variants)
-    lasts = sorted(last_names | {"len(self.K_list) - 1"})
-    ok_last = after_has([f"{lst}.append(self.K_list[-1])"] + [f"{lst}.append(self.K_list[{x}])" for x in lasts]) and \
-        after_has([f"if {x} in self.labels:\n    {labs}[len({lst}) - 1] = self.labels[{x}]" for x in lasts]) and \
-        after_has([f"if {x} in self.breaks:\n    {brks}.append(len({lst}) - 1)" for x in lasts])
-    r2.check(ok_last, "the last point, its label and break are appended after the loop", f, after[0] if after else f.node,
-             "the last point of the path (or its label/break) is lost by get_refined", stmt="last point")
-    if ok_last:
-        ia = [k for k, s_ in enumerate(after) if any(pmatch(s_, p_) for p_ in [f"{lst}.append(self.K_list[-1])"] + [f"{lst}.append(self.K_list[{x}])" for x in lasts])]
-        il = [k for k, s_ in enumerate(after) if isinstance(s_, ast.If) and "self.labels" in norm(s_.test)]
-        r2.check(bool(ia and il) and ia[0] < il[0], "… in that order (point first, then its label)", f, after[il[0]] if il else f.node,
-                 "the last label is keyed before the last point is appended: it lands on the previous point")
+    after = [s_ for s_ in after if not isinstance(s_, ast.Return)]
+    own_point(after, lasts, "last")
 
     # ---------------------------------------------------------------- R29.3
     r3 = ctx.rule("R29.3", "path coordinate = cumulative sum of non-negative increments")
@@ -180,97 +223,193 @@ def run(ctx) -> None:
     r4 = ctx.rule("R29.4", "from_nodes: labels on nodes, uniform segments, last node appended")
     fn = idx.function(PT, "Path.from_nodes")
     r4.instance(fn.short)
-    ncfg, ndu, npm = fctx(fn)
-    N = Frag(fn)
-    lpm = N.find("for start, end, l1, l2 in zip(nodes, nodes[1:], labels, labels[1:]):\n    ...")
-    if len(lpm) != 1:
-        r4.expect(False, "segment loop located", fn, fn.node, "from_nodes: `for start, end, l1, l2 in zip(nodes, nodes[1:], labels, labels[1:])` not found")
+    NS = Sem(idx, fn)
+    ncfg, ndu, npm = NS.cfg, NS.du, NS.pm
+    seg_loops = [l for l in stmts(fn.node) if isinstance(l, ast.For) and isinstance(l.iter, ast.Call) and call_name(l.iter) == "zip" and len(l.iter.args) >= 3
+                 and norm(l.iter.args[0]) == "nodes" and norm(l.iter.args[1]) == "nodes[1:]" and isinstance(l.target, ast.Tuple) and len(l.target.elts) == len(l.iter.args)]
+    if len(seg_loops) != 1:
+        r4.expect(False, "segment loop located", fn, fn.node, "from_nodes: the loop over zip(nodes, nodes[1:], <labels>…) was not found")
         return
-    lp4, b4 = lpm[0]
-    st_, en_, l1_ = b4["start"], b4["end"], b4["l1"]
-    seg_if = [s_ for s_ in lp4.body if isinstance(s_, ast.If) and norm(s_.test) in (f"{st_} is not None and {en_} is not None", f"{en_} is not None and {st_} is not None")]
-    if len(seg_if) != 1:
-        r4.expect(False, "segment branch located", fn, lp4, "from_nodes: the `start is not None and end is not None` branch was not found")
+    lp4 = seg_loops[0]
+    st_, en_, l1_ = (norm(x) for x in lp4.target.elts[:3])
+    lab_list = norm(lp4.iter.args[2])
+    # every statement that stacks rows below the k-list
+    stacks = [s_ for s_ in ast.walk(lp4) if isinstance(s_, ast.Assign) and isinstance(s_.targets[0], ast.Name)
+              and pmatch(s_.value, f"np.vstack(({s_.targets[0].id}, ANY))") and pmatch(s_.value, f"np.vstack(({s_.targets[0].id}, ANY))")[0][0] is s_.value]
+    kls = {s_.targets[0].id for s_ in stacks}
+    if len(kls) != 1:
+        r4.expect(False, "k-list stacking located", fn, lp4, "from_nodes: statements `K_list = np.vstack((K_list, …))` in the segment loop were not found")
         return
-    arm = seg_if[0].body
-    stk_m = [(k, s_) for k, s_ in enumerate(arm) if isinstance(s_, ast.Assign) and isinstance(s_.targets[0], ast.Name)
-             and any(call_name(c_) in ("np.vstack", "np.concatenate", "np.append") for c_ in ast.walk(s_.value) if isinstance(c_, ast.Call))]
-    if len(stk_m) != 1:
-        r4.expect(False, "stacking of the segment located", fn, seg_if[0], "from_nodes: the statement that stacks the sampled segment onto K_list was not found")
+    kl = next(iter(kls))
+
+    def paths(block, conds, events):
+        """enumerate paths through a statement list (ifs fork, continue ends a path); yields (conditions, events)"""
+        if not block:
+            yield conds, events, False
+            return
+        s0, rest = block[0], block[1:]
+        if isinstance(s0, ast.Continue):
+            yield conds, events, True
+            return
+        if isinstance(s0, ast.If):
+            for arm, pol in ((s0.body, True), (s0.orelse, False)):
+                for c_, e_, done in paths(list(arm), conds + [(s0.test, pol)], events):
+                    if done:
+                        yield c_, e_, True
+                    else:
+                        yield from paths(rest, c_, e_)
+            return
+        yield from paths(rest, conds, events + [s0])
+
+    def truth(test, env):
+        """three-valued evaluation of a test over {start is None, end is None}"""
+        if isinstance(test, ast.BoolOp):
+            vals = [truth(v, env) for v in test.values]
+            if isinstance(test.op, ast.And):
+                return False if any(v is False for v in vals) else (True if all(v is True for v in vals) else None)
+            return True if any(v is True for v in vals) else (False if all(v is False for v in vals) else None)
+        if isinstance(test, ast.UnaryOp) and isinstance(test.op, ast.Not):
+            v = truth(test.operand, env)
+            return None if v is None else not v
+        if isinstance(test, ast.Compare) and len(test.ops) == 1 and isinstance(test.comparators[0], ast.Constant) and test.comparators[0].value is None \
+                and norm(test.left) in env:
+            v = env[norm(test.left)]
+            return v if isinstance(test.ops[0], ast.Is) else (not v) if isinstance(test.ops[0], ast.IsNot) else None
+        return None
+
+    def analyse(evs):
+        """symbolic walk: length offset of the k-list relative to the start of the iteration"""
+        off = 0            # rows stacked so far (None = unknown)
+        temps = {}
+        lab_keys, stacked, brk_vals = [], [], []
+
+        def val(e):
+            t_ = norm(e).replace(" ", "")
+            if isinstance(e, ast.Name) and e.id in temps:
+                return temps[e.id]
+            if t_ in (f"{kl}.shape[0]", f"len({kl})"):
+                return off
+            if t_ in (f"{kl}.shape[0]-1", f"len({kl})-1"):
+                return None if off is None else off - 1
+            return "?"
+        for s_ in evs:
+            if isinstance(s_, ast.Assign) and isinstance(s_.targets[0], ast.Name) and norm(s_.value).replace(" ", "") in (f"{kl}.shape[0]", f"len({kl})"):
+                temps[s_.targets[0].id] = off
+            elif isinstance(s_, ast.Assign) and isinstance(s_.targets[0], ast.Subscript) and isinstance(s_.targets[0].value, ast.Name) and norm(s_.value) in (l1_,) \
+                    and s_.targets[0].value.id != kl:
+                lab_keys.append((norm(s_.targets[0].value), val(s_.targets[0].slice), s_))
+            elif s_ in stacks:
+                x = s_.value.args[0].elts[1]
+                xr = NS.resolve(x, ncfg.node(s_))
+                one = norm(x) in (f"[{st_}]", f"{st_}[None, :]", f"np.array([{st_}])", f"[{st_}]") or norm(xr) in (f"[{st_}]", f"np.array({st_})[None, :]")
+                stacked.append((s_, 1 if one else "seg", xr))
+                off = None if (off is None or not one) else off + 1
+            elif isinstance(s_, ast.Expr) and isinstance(s_.value, ast.Call) and isinstance(s_.value.func, ast.Attribute) and s_.value.func.attr == "append" and s_.value.args \
+                    and norm(s_.value.func.value) != kl and val(s_.value.args[0]) != "?":
+                brk_vals.append((norm(s_.value.func.value), val(s_.value.args[0]), s_))
+        return lab_keys, stacked, brk_vals
+    all_paths = list(paths(list(lp4.body), [], []))
+    nlab_names, brk_names = set(), set()
+    for sn in (True, False):
+        for en in (True, False):
+            env = {st_: sn, en_: en}
+            consistent = [(c_, e_) for c_, e_, _ in all_paths if all(truth(t_, env) in (None, pol) for t_, pol in c_)]
+            desc = f"start {'is' if sn else 'is not'} None, end {'is' if en else 'is not'} None"
+            for c_, e_ in consistent:
+                labk, stk, brk = analyse(e_)
+                anchor = (labk[0][2] if labk else (stk[0][0] if stk else lp4))
+                if sn:
+                    r4.check(not labk and not stk and not brk, f"[{desc}] nothing is added", fn, anchor,
+                             f"from_nodes adds points / labels / breaks for a segment whose start is None ({desc})")
+                    continue
+                nlab_names |= {x[0] for x in labk}
+                r4.check(len(labk) == 1 and labk[0][1] == 0, f"[{desc}] the start label is keyed by the index the node is about to get", fn, anchor,
+                         f"[{desc}] the label of the segment's start node is not stored exactly once under the current length of `{kl}` (before anything is stacked in this "
+                         f"iteration): it lands on the wrong k-point")
+                if en:
+                    brk_names |= {x[0] for x in brk}
+                    r4.check(len(stk) == 1 and stk[0][1] == 1 and len(brk) == 1 and brk[0][1] == 0, f"[{desc}] the lone start node is stacked and a break recorded at its index", fn, anchor,
+                             f"[{desc}] the piece-ending node is not stacked once with a break recorded at its own index (got stacks {[x[1] for x in stk]}, "
+                             f"break offsets {[x[1] for x in brk]}): the break points at another k-point")
+                else:
+                    okseg = len(stk) == 1 and stk[0][1] == "seg" and not brk
+                    if okseg:
+                        xr = stk[0][2]
+                        forms = ("S0[None, :] + np.linspace(0, 1.0, NK - 1, endpoint=False)[:, None] * (E0 - S0)[None, :]",
+                                 "S0 + np.linspace(0, 1.0, NK - 1, endpoint=False)[:, None] * (E0 - S0)")
+                        m_ = None
+                        for fm in forms:
+                            mm = pmatch(xr, fm, {"S0", "E0", "NK"})
+                            if mm and mm[0][0] is xr:
+                                m_ = mm[0][1]
+                        at0 = ncfg.node(lp4.body[0])
+                        sforms = {w.format(x) for x in (st_, NS.rnorm(ast.Name(id=st_, ctx=ast.Load()), at0)) for w in ("{}", "np.array({})", "np.asarray({})")}
+                        eforms = {w.format(x) for x in (en_, NS.rnorm(ast.Name(id=en_, ctx=ast.Load()), at0)) for w in ("{}", "np.array({})", "np.asarray({})")}
+                        okseg = m_ is not None and m_["S0"] in sforms and m_["E0"] in eforms
+                    r4.check(okseg, f"[{desc}] segment sampling: start + t (end − start), t uniform in [0, 1)", fn, stk[0][0] if stk else anchor,
+                             "a segment is no longer sampled as start + linspace(0, 1, _nk − 1, endpoint=False)·(end − start) and stacked once below K_list")
+    if not (len(nlab_names) == 1 and len(brk_names) == 1):
+        r4.expect(False, "label dictionary and break list identified", fn, lp4, f"from_nodes: label dict {nlab_names} / break list {brk_names} not identified uniquely")
         return
-    kl = stk_m[0][1].targets[0].id
-    nlab = None
-    p_lab = []
-    for k, s_ in enumerate(arm):
-        m_ = pmatch(s_, f"NL[{kl}.shape[0]] = {l1_}", {"NL"}) or pmatch(s_, f"NL[len({kl})] = {l1_}", {"NL"})
-        if m_ and m_[0][0] is s_:
-            p_lab.append(k)
-            nlab = m_[0][1]["NL"]
-    r4.check(bool(p_lab) and p_lab[0] < stk_m[0][0], "the start label is keyed by the index the node is about to get", fn, arm[p_lab[0]] if p_lab else seg_if[0],
-             "the label of a segment's start node is not stored (under the current length of K_list) before the segment is stacked: it lands on the wrong k-point")
-    stk = stk_m[0][1]
-    samp = pmatch(stk.value, f"np.vstack(({kl}, S0[None, :] + np.linspace(0, 1.0, NK - 1, endpoint=False)[:, None] * (E0 - S0)[None, :]))", {"S0", "E0", "NK"})
-    r4.check(bool(samp) and samp[0][0] is stk.value, "segment sampling: start + t (end − start), t uniform in [0, 1)",
-             fn, stk, "a segment is no longer sampled as start + linspace(0, 1, _nk − 1, endpoint=False)·(end − start) and stacked below K_list")
-    if samp:
-        sd = ndu.reaching(samp[0][1]["S0"], ncfg.node(stk))
-        ed = ndu.reaching(samp[0][1]["E0"], ncfg.node(stk))
-        r4.check(all(d.value is not None and norm(d.value) in (f"np.array({st_})", f"np.asarray({st_})") or d.kind == "for" for d in sd) and
-                 all(d.value is not None and norm(d.value) in (f"np.array({en_})", f"np.asarray({en_})") or d.kind == "for" for d in ed),
-                 "the sampled segment runs from this segment's start node to its end node", fn, stk, "the sampled segment does not run from the start node to the end node")
+    nlab, bname = next(iter(nlab_names)), next(iter(brk_names))
     after = fn.node.body[fn.node.body.index(lp4) + 1:] if lp4 in fn.node.body else []
-    A = ast.Module(body=after, type_ignores=[])
     i_st = [k for k, s_ in enumerate(after) if pmatch(s_, f"{kl} = np.vstack(({kl}, nodes[-1]))") or pmatch(s_, f"{kl} = np.vstack(({kl}, [nodes[-1]]))")]
-    i_lb = [k for k, s_ in enumerate(after) if nlab and (pmatch(s_, f"{nlab}[{kl}.shape[0] - 1] = labels[-1]") or pmatch(s_, f"{nlab}[len({kl}) - 1] = labels[-1]"))]
-    r4.check(bool(i_st and i_lb) and i_st[0] < i_lb[0],
-             "the last node is appended and labelled at its own index", fn, after[0] if after else fn.node,
-             "the last node / its label is not appended at the end of the path (label keyed by shape[0] − 1 after the node is stacked)")
-    brk = [s_ for s_ in ast.walk(lp4) if isinstance(s_, ast.Expr) and (pmatch(s_, f"BR.append({kl}.shape[0] - 1)", {"BR"}) or pmatch(s_, f"BR.append(len({kl}) - 1)", {"BR"}))]
-    r4.check(len(brk) == 1, "a break is recorded at the node that ends a piece", fn, brk[0] if brk else lp4, "breaks are not recorded at the end node of a piece")
-    bname = pmatch(brk[0], "BR.append(ANY)", {"BR"})[0][1]["BR"] if brk else None
-    if brk:
-        barm = enclosing(npm, brk[0], ast.If)
-        stack_one = [k for k, s_ in enumerate(barm.body if barm else []) if pmatch(s_, f"{kl} = np.vstack(({kl}, [{st_}]))") or pmatch(s_, f"{kl} = np.vstack(({kl}, {st_}))")]
-        ib = [k for k, s_ in enumerate(barm.body if barm else []) if s_ is brk[0]]
-        r4.check(barm is not None and bool(stack_one and ib) and stack_one[0] < ib[0], "… after the end node of the piece has been stacked", fn, brk[0],
-                 "the break index is taken before the last node of the piece is stacked: the break points at the previous k-point")
+    i_lb = [(k, s_) for k, s_ in enumerate(after) if isinstance(s_, ast.Assign) and isinstance(s_.targets[0], ast.Subscript) and norm(s_.targets[0].value) == nlab
+            and norm(s_.value) in (f"{lab_list}[-1]",)]
+    okl = False
+    if len(i_st) == 1 and len(i_lb) == 1:
+        kt = norm(i_lb[0][1].targets[0].slice).replace(" ", "")
+        okl = (i_st[0] < i_lb[0][0] and kt in (f"{kl}.shape[0]-1", f"len({kl})-1")) or (i_lb[0][0] < i_st[0] and kt in (f"{kl}.shape[0]", f"len({kl})"))
+    r4.check(okl, "the last node is appended and labelled at its own index", fn, after[0] if after else fn.node,
+             "the last node / its label is not appended at the end of the path (label keyed by the index the last node gets)")
     stores = {norm(s_.targets[0]): norm(s_.value) for s_ in after if isinstance(s_, ast.Assign) and isinstance(s_.targets[0], ast.Attribute)}
     r4.check(stores.get("self.K_list") == kl and stores.get("self.labels") == nlab and stores.get("self.breaks") == bname, "the constructed lists are stored", fn, fn.node,
              f"from_nodes does not store the constructed K_list/labels/breaks (stores: {stores})", stmt="stores")
+    ld = [d for d in ndu.reaching(lab_list, ncfg.node(lp4))] if lab_list.isidentifier() else []
+    r4.check(lab_list == "labels" or (len(ld) == 1 and ld[0].value is not None and "None if" in norm(ld[0].value)), "one label per node (None for a gap)", fn, lp4,
+             f"the labels iterated with the nodes (`{lab_list}`) are not one-per-node")
 
     # ---------------------------------------------------------------- R29.5
     r5 = ctx.rule("R29.5", "K-point batches tile the path in order")
     gl = idx.function(PT, "Path.get_K_list")
     r5.instance(gl.short)
-    L = Frag(gl)
-    kb = "k_batch"
-    cand = [s_ for s_ in stmts(gl.node) if isinstance(s_, ast.For) and isinstance(s_.target, ast.Name) and isinstance(s_.iter, ast.Call) and call_name(s_.iter) == "range"
-            and any(isinstance(n, ast.Subscript) and norm(n.value) == "self.K_list" for n in ast.walk(s_))]
-    if len(cand) != 1:
-        r5.expect(False, "batch loop located", gl, gl.node, "get_K_list: the loop that cuts self.K_list into batches was not found")
+    LS = Sem(idx, gl)
+    kb = gl.params[2] if len(gl.params) > 2 else "k_batch"
+    ctor = [c for c in ast.walk(gl.node) if isinstance(c, ast.Call) and call_name(c) == "KpointBZpath"]
+    if len(ctor) != 1:
+        r5.expect(False, "KpointBZpath constructor located", gl, gl.node, "get_K_list: one KpointBZpath(…) call expected")
     else:
-        lp5 = cand[0]
-        ik = lp5.target.id
-        ra = [norm(x).replace(" ", "") for x in lp5.iter.args]
+        c5 = ctor[0]
+        # iteration: an enclosing for-loop or the generator of an enclosing list comprehension
+        it_node, it_var, container = None, None, None
+        x = c5
+        while x in LS.pm:
+            x = LS.pm[x]
+            if isinstance(x, ast.ListComp) and len(x.generators) == 1 and x.elt is c5:
+                it_node, it_var = x.generators[0].iter, norm(x.generators[0].target)
+                st_ = enclosing(LS.pm, x, ast.stmt)
+                container = norm(st_.targets[0]) if isinstance(st_, ast.Assign) and st_.value is x else ("<returned>" if isinstance(st_, ast.Return) and st_.value is x else None)
+                break
+            if isinstance(x, ast.For):
+                it_node, it_var = x.iter, norm(x.target)
+                ap = LS.pm.get(c5)
+                if isinstance(ap, ast.Call) and isinstance(ap.func, ast.Attribute) and ap.func.attr == "append" and ap.args and ap.args[0] is c5:
+                    container = norm(ap.func.value)
+                break
+        ra = [norm(a_).replace(" ", "") for a_ in it_node.args] if isinstance(it_node, ast.Call) and call_name(it_node) == "range" else []
         r5.check(len(ra) == 3 and ra[0] == "0" and ra[1] in ("len(self.K_list)", "self.K_list.shape[0]") and ra[2] == kb,
-                 "batch starts: 0, k_batch, 2·k_batch, … < len(K_list)", gl, lp5,
-                 f"`{norm1(lp5.iter)}`: the batch starts are not range(0, len(self.K_list), k_batch): path points are skipped or evaluated twice")
-        sl = [n for n in ast.walk(lp5) if isinstance(n, ast.Subscript) and norm(n.value) == "self.K_list" and isinstance(n.slice, ast.Slice)]
-        oks = len(sl) == 1 and norm(sl[0].slice.lower or ast.Constant(0)) == ik and sl[0].slice.step is None and sl[0].slice.upper is not None \
-            and norm(sl[0].slice.upper).replace(" ", "") in (f"{ik}+{kb}", f"{kb}+{ik}")
-        r5.check(oks, "batch = K_list[ik : ik + k_batch]", gl, sl[0] if sl else lp5,
-                 f"`{norm1(sl[0]) if sl else ''}`: the batches handed to run() do not tile the path (points skipped or duplicated)")
-        ctor = [c for c in ast.walk(lp5) if isinstance(c, ast.Call) and call_name(c) == "KpointBZpath"]
-        okc = False
-        if len(ctor) == 1 and sl:
-            kv = kwarg(ctor[0], "K", 0)
-            kv = fctx(gl)[1].resolve_local(kv, fctx(gl)[1].node_of_expr(ctor[0])) if kv is not None else None
-            ap = fctx(gl)[2].get(ctor[0])
-            okc = kv is sl[0] and isinstance(fctx(gl)[2].get(ctor[0]), ast.Call) and fctx(gl)[2][ctor[0]].func.attr == "append"
-            ret = [s_ for s_ in stmts(gl.node) if isinstance(s_, ast.Return)]
-            okc = okc and len(ret) == 1 and norm(ret[0].value) == norm(fctx(gl)[2][ctor[0]].func.value)
-        r5.check(okc, "every batch becomes one KpointBZpath appended, in order, to the returned list", gl, ctor[0] if ctor else lp5,
-                 "a batch is not wrapped into its own KpointBZpath and appended to the returned list")
+                 "batch starts: 0, k_batch, 2·k_batch, … < len(K_list)", gl, it_node or c5,
+                 f"`{norm1(it_node) if it_node is not None else None}`: the batch starts are not range(0, len(self.K_list), k_batch): path points are skipped or evaluated twice")
+        kv = kwarg(c5, "K", 0)
+        kres = LS.resolve(kv, LS.du.node_of_expr(c5)) if kv is not None and not isinstance(LS.pm.get(c5), ast.ListComp) else kv
+        oks = isinstance(kres, ast.Subscript) and norm(kres.value) == "self.K_list" and isinstance(kres.slice, ast.Slice) and kres.slice.step is None \
+            and norm(kres.slice.lower or ast.Constant(0)) == it_var and kres.slice.upper is not None and norm(kres.slice.upper).replace(" ", "") in (f"{it_var}+{kb}", f"{kb}+{it_var}")
+        r5.check(oks, "batch = K_list[ik : ik + k_batch]", gl, c5,
+                 f"`{norm1(kres) if kres is not None else None}`: the batches handed to run() do not tile the path (points skipped or duplicated)")
+        ret = [s_ for s_ in stmts(gl.node) if isinstance(s_, ast.Return)]
+        r5.check(container is not None and len(ret) == 1 and (container == "<returned>" or norm(ret[0].value) == container),
+                 "every batch becomes one KpointBZpath, in order, in the returned list", gl, c5,
+                 "a batch is not wrapped into its own KpointBZpath and collected, in order, in the returned list")
     kp = idx.cls("wannierberri/grid/Kpoint.py", "KpointBZpath")
     ini = kp.methods["__init__"]
     sup = [c for c in ast.walk(ini.node) if isinstance(c, ast.Call) and norm(c.func) == "super().__init__"]
